@@ -87,7 +87,7 @@ PLAN = {
         kani=True,
         undecided_clauses=[
             "which (layer, filter, bias) slot each parameter tensor is stepped in is proved for Network::update (unit network.update.dispatch: one step per parameter tensor, "
-            "slot = (reverse layer index, filter, bias flag)); that distinct slots do not share state is the Kani slot harnesses' (SGD-momentum, Adam over layers and filters; RMSprop over filters; AdamW by reading: same addressing code as Adam)",
+            "slot = (reverse layer index, filter, bias flag)); that distinct slots do not share state is the Kani slot harnesses' (SGD-momentum and Adam: symbolic slot over layers and over filters; AdamW and RMSprop: each of the 8 slots of a 2 x 2 x 2 layout in turn, concrete distinct state)",
             "parameters never become NaN/inf for moderate magnitudes (needs IEEE value reasoning through powi/powf/sqrt/div; "
             "one Adam element over the full float domain did not finish in CBMC; Verus has no float theory)"],
     ),
